@@ -61,6 +61,7 @@ type TokSpec struct {
 	Time     string  `json:"time,omitempty"`      // time claims: "" iat 2020 / exp 2100 | expired (exp 2023) | exp-missing | iat-future (iat 2096)
 	Outer    string  `json:"outer,omitempty"`     // request objects: the client making the authorization request (outer client_id) if it is not Iss
 	CID      string  `json:"cid,omitempty"`       // request objects: the object's client_id member: "" = Iss | absent | empty | c1 | c2 | ghost (Iss "absent": no iss member)
+	Mark     string  `json:"mark,omitempty"`      // concurrent sub-check: the "mark" (and user) of the genuine payload, one per token, so that claims of ANOTHER caller's token are recognised ("" = "genuine")
 	Manips   []Manip `json:"manips,omitempty"`
 }
 
@@ -110,6 +111,7 @@ type Case struct {
 	Raw        []byte       `json:"raw,omitempty"` // native fuzz: literal serialized token ($H $P $S $E placeholders), replaces manipulations
 	Seq        []Step       `json:"seq,omitempty"` // further calls on the same verifier / key-set / provider instance
 	Prov       *ProvOpts    `json:"prov,omitempty"` // prov-access / prov-hint / hint-http / hint-end-http: verification options of op.NewProvider; Keys stays what the storage publishes
+	Conc       *Conc        `json:"conc,omitempty"`  // set: concurrent sub-check (TestConcurrent*, conc_test.go); Tok mirrors the first token, Seq unused
 	Stale      string       `json:"stale,omitempty"` // op-hint: the verifier has MaxAgeIAT ("iat") or MaxAge ("auth"; tokens carry auth_time 2020) of one hour: every token of the case fails a time check
 }
 
